@@ -258,6 +258,14 @@ Quiet(act, p, j, res) ==
     /\ last' = Call(act, p, j, res)
     /\ UNCHANGED <<sess, psig>>
 
+\* KeyAgg / ApplyTweak are FUNCTIONS of the key list and the tweak chain: asking
+\* again with the very same arguments (the same option values: they are not
+\* consumed by a call) gives the same context, at any later time.
+AggregateAgain ==
+    /\ phase \in {"nonces", "run"}
+    /\ Quiet("AggregateKeysAgain", 0, 0, IF KeyAggCtx = agg THEN "same" ELSE "different")
+    /\ UNCHANGED <<phase, api, keys, d, sort, a, tw, tapi, agg, k, b, e>>
+
 \* Session.RegisterPubNonce: p is given the public nonce of j
 RegisterPubNonce(p, j) ==
     /\ phase = "run" /\ api = "session" /\ p # j /\ j \notin sess[p].regd
@@ -330,7 +338,7 @@ SessionVerifyA         == \E p \in Pos, j \in Pos, c \in (IF Faults THEN BOOLEAN
 CombineSigA            == \E p \in Pos, j \in Pos, c \in (IF Faults THEN BOOLEAN ELSE {FALSE}) : CombineSig(p, j, c)
 
 Next == \/ ChooseKeys \/ ChooseVals \/ ChooseCoef \/ AddTweak \/ Setup \/ GenNonce \/ NoncesDone \/ ChooseHash
-        \/ Evaluate
+        \/ Evaluate \/ AggregateAgain
         \/ RegisterPubNonceA \/ RegisterCombinedNonceA \/ SessionSignA \/ SessionVerifyA \/ CombineSigA
 
 (* ---------------- properties -------------------------------------------- *)
@@ -385,6 +393,10 @@ SignOnce ==
 AccumulatorsSound ==
     (agg.ok /\ phase # "keys" /\ phase # "vals" /\ phase # "coef" /\ phase # "tweaks") =>
         agg.Q = Add(Mul(agg.gacc, AggPoint), agg.tacc)
+
+\* the stored context is what KeyAgg + ApplyTweak give for the arguments, always
+AggregateIsFunction ==
+    (phase \notin {"keys", "vals", "coef", "tweaks"}) => agg = KeyAggCtx
 
 TypeOK ==
     /\ phase \in {"keys", "vals", "coef", "tweaks", "nonces", "hash", "run", "done"}
